@@ -140,3 +140,76 @@ SHIPPED = [('mass_vf', {}, 'MassAssembler'), ('stiffness_vf', {}, 'StiffnessAsse
            ('heat_st_vf', {}, 'HeatAssembler_ST'), ('wave_st_vf', {}, 'WaveAssembler_ST'),
            ('divdiv_vf', {}, 'DivDivAssembler'), ('L2functional_vf', {}, 'L2FunctionalAssembler'),
            ('L2functional_vf', {'physical': True}, 'L2FunctionalAssemblerPhys')]
+
+
+# ---------------------------------------------------------------------------------------------------------------
+# forms built through the VForm API (let variables etc.) -- not expressible through parse_vf strings
+
+def _api_base(dim=2, fields=('f', 'h')):
+    from pyiga import vform
+    V = vform.VForm(dim)
+    u, v = V.basisfuns()
+    env = {'V': V, 'u': u, 'v': v}
+    if 'f' in fields:
+        env['f'] = V.input('f', shape=(), physical=True)
+    if 'h' in fields:
+        env['h'] = V.input('h', shape=(), physical=False)
+    if 'A' in fields:
+        env['A'] = V.input('A', shape=(dim, dim), physical=True)
+    return env
+
+
+def api_pairs():
+    """(name, build_A, build_B): A uses a `let` variable (or another indirection), B writes the same mathematics inline"""
+    from pyiga import vform as vf
+    P = []
+
+    def pair(name, fa, fb):
+        P.append((name, fa, fb))
+
+    def mk(body_a, body_b, **kw):
+        def A():
+            e = _api_base(**kw)
+            e['V'].add(body_a(e))
+            return e['V']
+
+        def B():
+            e = _api_base(**kw)
+            e['V'].add(body_b(e))
+            return e['V']
+        return A, B
+    a, b = mk(lambda e: vf.Dx(e['V'].let('w', e['h'] * e['h'] + e['h']), 0, parametric=True) * e['u'] * e['v'] * vf.dx,
+              lambda e: vf.Dx(e['h'] * e['h'] + e['h'], 0, parametric=True) * e['u'] * e['v'] * vf.dx)
+    pair('let-dx-parametric', a, b)
+    a, b = mk(lambda e: vf.Dx(e['V'].let('w', e['f'] * e['f'] + 2 * e['f']), 1) * e['u'] * e['v'] * vf.dx,
+              lambda e: vf.Dx(e['f'] * e['f'] + 2 * e['f'], 1) * e['u'] * e['v'] * vf.dx)
+    pair('let-dx-physical', a, b)
+    a, b = mk(lambda e: vf.inner(vf.grad(e['V'].let('w', e['h'] * (e['h'] + 1)), parametric=True), vf.grad(e['v'], parametric=True)) * e['u'] * vf.dx,
+              lambda e: vf.inner(vf.grad(e['h'] * (e['h'] + 1), parametric=True), vf.grad(e['v'], parametric=True)) * e['u'] * vf.dx)
+    pair('let-grad-parametric', a, b)
+    a, b = mk(lambda e: vf.inner(vf.grad(e['V'].let('w', e['f'] / (e['f'] + 3))), vf.grad(e['v'])) * e['u'] * vf.dx,
+              lambda e: vf.inner(vf.grad(e['f'] / (e['f'] + 3)), vf.grad(e['v'])) * e['u'] * vf.dx)
+    pair('let-grad-quotient', a, b)
+
+    def sa(e):
+        V = e['V']
+        B = V.let('B', V.W * vf.dot(V.JacInv, V.JacInv.T), symmetric=True)
+        return B.dot(vf.grad(e['u'], parametric=True)).dot(vf.grad(e['v'], parametric=True))
+    a, b = mk(sa, lambda e: vf.inner(vf.grad(e['u']), vf.grad(e['v'])) * vf.dx)
+    pair('let-symmetric-stiffness', a, b)
+
+    def va(e):
+        V = e['V']
+        w = V.let('w', vf.as_vector((e['h'] * e['h'], 2 * e['h'])))
+        return vf.div(w, parametric=True) * e['u'] * e['v'] * vf.dx
+    a, b = mk(va, lambda e: (vf.Dx(e['h'] * e['h'], 0, parametric=True) + vf.Dx(2 * e['h'], 1, parametric=True)) * e['u'] * e['v'] * vf.dx)
+    pair('let-vector-div-parametric', a, b)
+
+    def la(e):
+        V = e['V']
+        w1 = V.let('w1', e['h'] + 1)
+        w2 = V.let('w2', w1 * w1)
+        return vf.Dx(w2, 1, parametric=True) * e['u'] * e['v'] * vf.dx
+    a, b = mk(la, lambda e: vf.Dx((e['h'] + 1) * (e['h'] + 1), 1, parametric=True) * e['u'] * e['v'] * vf.dx)
+    pair('let-nested-dx-parametric', a, b)
+    return P
